@@ -99,7 +99,7 @@ PROPS = {
         level="model_checking",
         level_text='bounded model checking by symbolic execution: the real Build (tag lexing by text/scanner executed from SSA, grammar.go, validate) and the real Parse (parser.go, nodes.go, context.go, lexer/peek.go) run on a symbolic token stream; accept/reject and every AST field are compared on every feasible path with an independent reference semantics of the tag language',
         level_note='trusted: the reference semantics (own tag parser + evaluator written from the README, validated natively against the implementation on 960k random cases while designing), the reflect model of the executor (sampled paths are replayed natively with the real reflect on every run), z3; bounds: catalogue grammars x streams of <= 5 (quick) / <= 7 (thorough) tokens of arbitrary type and arbitrary one-byte text, lookahead an unconstrained 64-bit int, AllowTrailing symbolic',
-        runs=[dict(pkg=".", files=["root/zz_verif_ref.go", "root/zz_verif_parse.go", "root/zz_verif_grammars.go"], harness='^VH_C01_', reach={'VH_C01_Alt': ['accept', 'reject'], 'VH_C01_Union': ['accept', 'reject'], 'VH_C01_Fold': ['accept'], 'VH_C01_Lookahead': ['accept', 'reject']})],
+        runs=[dict(pkg=".", files=["root/zz_verif_ref.go", "root/zz_verif_parse.go", "root/zz_verif_grammars.go", "root/zz_verif_gengrammar.go"], harness='^VH_C01_', reach={'VH_C01_Alt': ['accept', 'reject'], 'VH_C01_Union': ['accept', 'reject'], 'VH_C01_Fold': ['accept'], 'VH_C01_Lookahead': ['accept', 'reject']})],
         bounds={'quick': 'streams of <= 5 tokens + EOF, token types arbitrary 64-bit values != EOF, token texts arbitrary single bytes, lookahead any int (negative = unlimited), AllowTrailing on/off; symbols A,B,C,Ws,Cm', 'thorough': 'as quick with streams of <= 7 tokens'},
         outside='grammars outside the catalogue (20 grammars: sequence, choice, ? * + !, [ ] { }, multi-token captures, parser:"" tag form, ~, (?= ) (?! ), typed literals, case-insensitive tokens, @@ into *T / T / []*T / []T, recursion, unions, lexer.Token / []lexer.Token captures, elision); streams longer than the bound; token texts longer than one byte; non-ASCII case folding; Parseable/Capture/TextUnmarshaler user code; numeric fields (C17); which error is returned (C06)',
         assumptions=["text/scanner, strconv, unicode are executed from SSA; reflect is modelled over go/types; fmt by a small printf model",
@@ -110,7 +110,7 @@ PROPS = {
         level="model_checking",
         level_text='as C01 on grammars in which a capture precedes a possible failure inside every kind of choice point (alternative, ?, *, ~, lookahead group, union member), including a complete sub-production matched inside the abandoned attempt; every AST field — also fields the accepted derivation never wrote — is compared with the reference on every accepted path',
         level_note='trusted: the reference semantics (own tag parser + evaluator written from the README, validated natively against the implementation on 960k random cases while designing), the reflect model of the executor (sampled paths are replayed natively with the real reflect on every run), z3; bounds: catalogue grammars x streams of <= 5 (quick) / <= 7 (thorough) tokens of arbitrary type and arbitrary one-byte text, lookahead an unconstrained 64-bit int, AllowTrailing symbolic',
-        runs=[dict(pkg=".", files=["root/zz_verif_ref.go", "root/zz_verif_parse.go", "root/zz_verif_grammars.go"], harness='^VH_C02_', reach={'VH_C02_Leak': ['accept', 'reject'], 'VH_C02_LeakOpt': ['accept'], 'VH_C02_LeakNested': ['accept']})],
+        runs=[dict(pkg=".", files=["root/zz_verif_ref.go", "root/zz_verif_parse.go", "root/zz_verif_grammars.go", "root/zz_verif_gengrammar.go"], harness='^VH_C02_', reach={'VH_C02_Leak': ['accept', 'reject'], 'VH_C02_LeakOpt': ['accept'], 'VH_C02_LeakNested': ['accept']})],
         bounds={'quick': 'streams of <= 5 tokens + EOF, token types arbitrary 64-bit values != EOF, token texts arbitrary single bytes, lookahead any int (negative = unlimited), AllowTrailing on/off; symbols A,B,C,Ws,Cm', 'thorough': 'as quick with streams of <= 7 tokens'},
         outside='grammars outside the catalogue; streams longer than the bound',
         assumptions=["text/scanner, strconv, unicode are executed from SSA; reflect is modelled over go/types; fmt by a small printf model",
@@ -121,7 +121,7 @@ PROPS = {
         level="model_checking",
         level_text='bounded model checking by symbolic execution: on every feasible path of Build + ParseString over a symbolic token stream: no panic; nil error implies non-nil AST; an error implements participle.Error, comes with a non-nil partial AST, its position is the position of a token of the input, an UnexpectedTokenError carries the token at that position, and Error() is the documented [file:]line:col: message rendering',
         level_note='trusted: the reference semantics (own tag parser + evaluator written from the README, validated natively against the implementation on 960k random cases while designing), the reflect model of the executor (sampled paths are replayed natively with the real reflect on every run), z3; bounds: catalogue grammars x streams of <= 5 (quick) / <= 7 (thorough) tokens of arbitrary type and arbitrary one-byte text, lookahead an unconstrained 64-bit int, AllowTrailing symbolic',
-        runs=[dict(pkg=".", files=["root/zz_verif_ref.go", "root/zz_verif_parse.go", "root/zz_verif_grammars.go"], harness='^VH_C06_', reach={'VH_C06_Seq': ['ok', 'error', 'unexpected-token'], 'VH_C06_EmptyTok': ['ok', 'error']})],
+        runs=[dict(pkg=".", files=["root/zz_verif_ref.go", "root/zz_verif_parse.go", "root/zz_verif_grammars.go", "root/zz_verif_gengrammar.go", "root/zz_verif_entry.go"], harness='^VH_C06_', reach={'VH_C06_Seq': ['ok', 'error', 'unexpected-token'], 'VH_C06_EmptyTok': ['ok', 'error'], 'VH_C06_Bytes': ['ok', 'lex-error', 'parse-error']})],
         bounds={'quick': 'streams of <= 5 tokens + EOF, token types arbitrary 64-bit values != EOF, token texts arbitrary single bytes, lookahead any int (negative = unlimited), AllowTrailing on/off; symbols A,B,C,Ws,Cm', 'thorough': 'as quick with streams of <= 7 tokens'},
         outside='stack depth and running time on long or deeply nested inputs (a bounded symbolic run says nothing about them); lexing failures through the real lexers (covered by C03/C07 at the lexer level); grammars outside the catalogue; user Parseable/Capture code',
         assumptions=["text/scanner, strconv, unicode are executed from SSA; reflect is modelled over go/types; fmt by a small printf model",
@@ -132,7 +132,7 @@ PROPS = {
         level="model_checking",
         level_text="relational bounded model checking: one symbolic raw stream S with elided tokens anywhere and the stream S' with every elided token removed are parsed by the same grammar; acceptance and every captured field must agree on every feasible path (any two inputs with equal non-elided sequences are both related to the same S'); a grammar that names the elided type is compared with the reference semantics",
         level_note='trusted: the reference semantics (own tag parser + evaluator written from the README, validated natively against the implementation on 960k random cases while designing), the reflect model of the executor (sampled paths are replayed natively with the real reflect on every run), z3; bounds: catalogue grammars x streams of <= 5 (quick) / <= 7 (thorough) tokens of arbitrary type and arbitrary one-byte text, lookahead an unconstrained 64-bit int, AllowTrailing symbolic',
-        runs=[dict(pkg=".", files=["root/zz_verif_ref.go", "root/zz_verif_parse.go", "root/zz_verif_grammars.go"], harness='^VH_C10_', reach={'VH_C10_Seq': ['has-elided', 'accepted'], 'VH_C10_Alt': ['has-elided', 'accepted'], 'VH_C10_Named': ['accept']})],
+        runs=[dict(pkg=".", files=["root/zz_verif_ref.go", "root/zz_verif_parse.go", "root/zz_verif_grammars.go", "root/zz_verif_gengrammar.go"], harness='^VH_C10_', reach={'VH_C10_Seq': ['has-elided', 'accepted'], 'VH_C10_Alt': ['has-elided', 'accepted'], 'VH_C10_Named': ['accept']})],
         bounds={'quick': 'streams of <= 5 tokens + EOF, token types arbitrary 64-bit values != EOF, token texts arbitrary single bytes, lookahead any int (negative = unlimited), AllowTrailing on/off; symbols A,B,C,Ws,Cm', 'thorough': 'as quick with streams of <= 7 tokens'},
         outside='grammars outside the catalogue; streams longer than the bound; elided tokens whose text equals an untyped literal of the grammar (assumed away: such a literal asks for the token)',
         assumptions=["text/scanner, strconv, unicode are executed from SSA; reflect is modelled over go/types; fmt by a small printf model",
@@ -143,7 +143,7 @@ PROPS = {
         level="model_checking",
         level_text='bounded model checking by symbolic execution: on every accepted path the Tokens / Pos / EndPos fields of every node (direct and via an embedded struct) are compared with the token run the reference semantics assigns to that node: contiguity, containment in the parent, sibling order, root run ending at the last consumed token, Pos = first non-elided token, EndPos = next raw token',
         level_note='trusted: the reference semantics (own tag parser + evaluator written from the README, validated natively against the implementation on 960k random cases while designing), the reflect model of the executor (sampled paths are replayed natively with the real reflect on every run), z3; bounds: catalogue grammars x streams of <= 5 (quick) / <= 7 (thorough) tokens of arbitrary type and arbitrary one-byte text, lookahead an unconstrained 64-bit int, AllowTrailing symbolic',
-        runs=[dict(pkg=".", files=["root/zz_verif_ref.go", "root/zz_verif_parse.go", "root/zz_verif_grammars.go"], harness='^VH_C11_', reach={'VH_C11_Pos': ['accept', 'node-consumed'], 'VH_C11_Embedded': ['accept', 'node-consumed']})],
+        runs=[dict(pkg=".", files=["root/zz_verif_ref.go", "root/zz_verif_parse.go", "root/zz_verif_grammars.go", "root/zz_verif_gengrammar.go"], harness='^VH_C11_', reach={'VH_C11_Pos': ['accept', 'node-consumed'], 'VH_C11_Embedded': ['accept', 'node-consumed']})],
         bounds={'quick': 'streams of <= 5 tokens + EOF, token types arbitrary 64-bit values != EOF, token texts arbitrary single bytes, lookahead any int (negative = unlimited), AllowTrailing on/off; symbols A,B,C,Ws,Cm', 'thorough': 'as quick with streams of <= 7 tokens'},
         outside='grammars outside the catalogue; convertible position types other than lexer.Position; streams longer than the bound',
         assumptions=["text/scanner, strconv, unicode are executed from SSA; reflect is modelled over go/types; fmt by a small printf model",
@@ -154,7 +154,7 @@ PROPS = {
         level="model_checking",
         level_text='relational bounded model checking: the same symbolic stream is parsed with lookahead k and k2, both symbolic with k >= 0 and (k2 < 0 or k2 > k); whenever the first parse succeeds the second must succeed with a field-by-field identical AST (no reference semantics involved)',
         level_note='trusted: the reference semantics (own tag parser + evaluator written from the README, validated natively against the implementation on 960k random cases while designing), the reflect model of the executor (sampled paths are replayed natively with the real reflect on every run), z3; bounds: catalogue grammars x streams of <= 5 (quick) / <= 7 (thorough) tokens of arbitrary type and arbitrary one-byte text, lookahead an unconstrained 64-bit int, AllowTrailing symbolic',
-        runs=[dict(pkg=".", files=["root/zz_verif_ref.go", "root/zz_verif_parse.go", "root/zz_verif_grammars.go"], harness='^VH_C13_', reach={'VH_C13_Alt': ['succeeds-with-k', 'fails-with-k'], 'VH_C13_LeakOpt': ['succeeds-with-k']})],
+        runs=[dict(pkg=".", files=["root/zz_verif_ref.go", "root/zz_verif_parse.go", "root/zz_verif_grammars.go", "root/zz_verif_gengrammar.go"], harness='^VH_C13_', reach={'VH_C13_Alt': ['succeeds-with-k', 'fails-with-k'], 'VH_C13_LeakOpt': ['succeeds-with-k']})],
         bounds={'quick': 'streams of <= 5 tokens + EOF, token types arbitrary 64-bit values != EOF, token texts arbitrary single bytes, lookahead any int (negative = unlimited), AllowTrailing on/off; symbols A,B,C,Ws,Cm', 'thorough': 'as quick with streams of <= 7 tokens'},
         outside='grammars outside the catalogue (9 grammars without ~ and lookahead groups); streams longer than the bound',
         assumptions=["text/scanner, strconv, unicode are executed from SSA; reflect is modelled over go/types; fmt by a small printf model",
